@@ -301,6 +301,30 @@ def other_modules(ctx):
                     and wu.shape == wr.shape and np.allclose(wu, wr, rtol=tol, atol=tol, equal_nan=True)):
                 ctx.issue("violation", f"{cls}.kernel:differs-from-published-rule",
                           f"T {T} vs {Tr}; M {M} vs {Mr}; update {wu.tolist()} vs {wr.tolist()}", rep)
+            # the kernels compute with the hyper-parameters they are GIVEN (TopoART passes beta_lower, SMART and the
+            # vigilance searches pass modified copies), not with the estimator's own
+            alt = dict(p)
+            for key_, vals_ in (("beta", [0.0, 0.25, 0.5, 1.0]), ("alpha", [2.0 ** -10, 0.125, 0.5]), ("r_hat", [1.5, 3.0, 8.0]),
+                                ("mu", [0.5, 0.75, 1.0]), ("L", [2.0, 3.0]), ("lr_b", [0.125, 0.75]), ("lr_w", [0.25]), ("lr_s", [0.25])):
+                if key_ in alt:
+                    alt[key_] = r.choice([v_ for v_ in vals_ if v_ != p[key_]] or vals_)
+            try:
+                with quiet(), np.errstate(all="ignore"):
+                    Ta, cache_a = m.category_choice(x, w, params=alt)
+                    Ma, cache_a2 = m.match_criterion(x, w, params=alt, cache=cache_a)
+                    wua = np.asarray(m.update(x, w, alt, cache=cache_a2), dtype=float)
+                    Tra, Mra, wra = reference(cls, alt, d, x, w, [w_[-1] for w_ in m.W])
+                if not (abs(Ta - Tra) <= tol * (1 + abs(Tra)) and abs(Ma - Mra) <= tol * (1 + abs(Mra))
+                        and wua.shape == wra.shape and np.allclose(wua, wra, rtol=tol, atol=tol, equal_nan=True)):
+                    ctx.issue("violation", f"{cls}.kernel:ignores-the-params-argument",
+                              f"called with params {({k_: alt[k_] for k_ in alt if not hasattr(alt[k_], 'shape') and alt[k_] != p.get(k_)})} "
+                              f"on an estimator built with other values: T {Ta} vs {Tra}; M {Ma} vs {Mra}; update {wua.tolist()} vs {wra.tolist()}",
+                              dict(rep, params_passed={k_: v_ for k_, v_ in alt.items() if not hasattr(v_, "shape")}))
+                cov.hit(f"alternate-params:{cls}")
+            except ZeroDivisionError:
+                cov.hit(f"alternate-params:zerodiv:{cls}")
+            except Exception as e:
+                cov.hit(f"alternate-params:raised:{cls}:{exc_enum(e)}")
             # the binary test thresholds M against rho with the operator of the selected mode, also when
             # M == rho exactly (BayesianART compares the other way round: rho >= M)
             Mf = float(M)
